@@ -12,6 +12,7 @@
 from __future__ import annotations
 
 import ast
+import re
 
 from ..cfg import EXIT, header_parts
 from ..flow import parse_expr, Defs, Scope, bool_eval, guard_facts, inline_predicates, iterations, unreachable_when
@@ -107,6 +108,17 @@ def rule_deferred(ctx: Ctx) -> None:
                 "evaluate() raises TypeError or computes with the wrapper object instead of its value", "order of merging and resolving not recognised", key="force-after-merge")
     else:
         ctx.add("1-deferred", call, call.node, None, "UNDECIDED: the merge of defaults / bound values or the resolution of deferred arguments was not found in PipeFunc.__call__", key="force-after-merge")
+    # while a task graph is recorded, `_current_cache` hands every pipeline the ONE cache of the construct_dag block; the key is
+    # (output name, root-argument values) - unique within a pipeline, not across the pipelines that are called in the block
+    cc = P.func("pipefunc._pipeline._base.Pipeline._current_cache")
+    shared = [r for r in walk_no_nested(cc.node) if isinstance(r, ast.Return) and r.value is not None and re.search(r"\b(tg|task_graph\(\)|_TASK_GRAPH)\.cache\b", norm(Defs(cc).resolve(r.value)))]
+    if shared:
+        keyed = [c for c in ast.walk(run_m.node) if isinstance(c, ast.Call) and dotted(c.func).rsplit(".", 1)[-1] == "compute_cache_key"]
+        d_run = Defs(run_m)
+        with_identity = any(re.search(r"\bid\(self\)|\bid\(func\)|_cache_id|\(self,|\(func,", norm(a_.value)) for a_ in walk_no_nested(run_m.node) if isinstance(a_, ast.Assign) and any(isinstance(t, ast.Name) and t.id == "cache_key" for t in a_.targets))
+        ctx.tri("5-dag", run_m, keyed[0] if keyed else run_m.node, with_identity, bool(keyed) and not with_identity, "the key used in the shared cache of a construct_dag block identifies the pipeline / function",
+                "inside a construct_dag block every pipeline memoises into the block's ONE cache under (output name, root-argument values): two pipelines with an equally named output and equal arguments share the entry - "
+                "the second one's deferred result evaluates to the FIRST pipeline's value", "key construction not recognised", key="dag-cache-key-identifies-pipeline")
 
 
 def rule_memo(ctx: Ctx) -> None:
